@@ -80,7 +80,7 @@ impl PMMRBackend {
     pub fn unpruned_size(&self) -> (r: u64) { unimplemented!() }
     #[verifier::external_body]
     fn clean_rewind_files(&self) -> (r: io::Result<u32>) { unimplemented!() }
-    /// the (leaves removed, positions to remove) selection: iterator code outside the subset, NOT decided here
+    /// the (leaves removed, positions to remove) selection: decided in C08/pos_to_rm
     #[verifier::external_body]
     fn pos_to_rm(&self, cutoff_pos: u64, rewind_rm_pos: &Bitmap) -> (r: (Bitmap, Bitmap)) ensures r.0 == sp_leaves_removed(*self, cutoff_pos, *rewind_rm_pos) { unimplemented!() }
 //@ extract store/src/pmmr.rs :: impl PMMRBackend::sync_leaf_set
